@@ -16,6 +16,7 @@ func init() {
 
 func c05(c *q.Ctx) {
 	blockCacheCoherent(c)
+	keyLockProtocol(c)
 	const st = "bcs/ledger/xledger/state::"
 	const led = "bcs/ledger/xledger/ledger::"
 	kinds := []q.MirrorKind{
